@@ -20,7 +20,7 @@ META = dict(
                  'monitoring cap of 300/600 steps: capped runs have no verdict and are excluded (counted)'],
     min_events={'quick': {'pairs': 80, 'valid_in_weaker_compared': 1500},
                 'thorough': {'pairs': 150, 'valid_in_weaker_compared': 60000}},
-    budget=dict(quick=1500, thorough=3000),
+    budget=dict(quick=1500, thorough=7200),
     unit_timeout=dict(quick=900, thorough=3000),
 )
 NARGS = dict(quick=40, thorough=900)
